@@ -87,9 +87,27 @@ func init() {
 		if err != nil {
 			return "", err
 		}
+		// the pointer budget: a literal before the ptr-depth repair, the constant
+		// maxCompressionPointers (shared with Name.pack / compressionDepth) after it
 		ptrLimit, err := c36Find(unpack, `^ptr\+\+; ptr > (\d+)$`)
 		if err != nil {
-			return "", err
+			if _, err2 := c36Find(unpack, `^ptr\+\+; ptr > (maxCompressionPointers)$`); err2 != nil {
+				return "", err
+			}
+			if ptrLimit, err = p.ConstInt("maxCompressionPointers"); err != nil {
+				return "", err
+			}
+			if _, err := c36Find(pack, `^ptr, ok := .*; ok && compressionDepth\(msg, compressionOff, int\(ptr\)\) < (maxCompressionPointers)$`); err != nil {
+				return "", err
+			}
+			depth, err := c36Conds(p, "compressionDepth")
+			if err != nil {
+				return "", err
+			}
+			if _, err := c36Find(depth, `^depth\+\+; depth >= (maxCompressionPointers)$`); err != nil {
+				return "", err
+			}
+			b.WriteString("/-- Name.pack consults compressionDepth before emitting a pointer -/\ndef packChecksDepth : Bool := true\n")
 		}
 		if _, err := c36Find(unpack, `^(len\(name\)\+\(endOff-currOff\) >= nonEncodedNameMax)$`); err != nil {
 			return "", err
